@@ -534,6 +534,9 @@ public:
             // because we want to extend the last vector we must not shrink its max memory usage
             // in order to ensure the missing memory
             ensureMem(newmax - ps->max(), false);
+            // ensureMem() may have packed the memory, which shrinks max() of every vector to its size: ask again with
+            // the amount that is missing now
+            ensureMem(newmax - ps->max(), false);
 #ifndef NDEBUG
             Nonzero<R>* olddata = SVSetBaseArray::data;
             SVSetBaseArray::insert(memSize(), newmax - ps->max());
